@@ -233,6 +233,10 @@ func GovcC03AllZeroPosition() {
   r = NullSparseFloat64Vector(2)
   r.VdivS(a, NewFloat64(y))
   govcCheckEq("VdivS[1]", r.ConstAt(1).GetFloat64(), x/y)
+  // the same convention ends Set from another representation early
+  r = NullSparseFloat64Vector(2)
+  r.Set(a)
+  govcCheckEq("Set[1]", r.ConstAt(1).GetFloat64(), x)
 }
 
 // concrete (capital-letter) sparse operations: all operands sparse, built from lists (zeros dropped)
